@@ -57,6 +57,22 @@ CHECKS["C07"] = dict(level="model_checking", ref="DESIGN.md §4 C07, §9",
          "channel capacity 10 in the code, 2-3 in the model; remote calls are covered by C12/C14.",
     tech="TLA+ spec Call + TLC; edge-cover histories executed on real processes; recorded histories validated by TLC (Call_Trace)")
 
+SUP_NOTE = ("Trusted: TLC; the reference supervisor (spec/SupContract.tla) is written from the documentation; faults are injected while the real supervisor is "
+            "held inside a callback, so the order of exit signals in its mailbox is the batch order; 3 children; restart counts are not compared.")
+CHECKS["C08"] = dict(level="model_checking", ref="DESIGN.md §4 C08, §9",
+    text="Every configuration (type x strategy x KeepOrder x significant child x auto-shutdown) is run on real act.Supervisor processes with gated children through "
+         "enumerated fault histories: every child x every reason at quiescence, second faults, DisableChild/EnableChild, and every order of 2-3 overlapping deaths; "
+         "TLC validates each recorded history against the sequential reference supervisor SupContract: running set, which children kept their process, start order, "
+         "stop order under KeepOrder (as the supervisor saw it), fate and reason of the supervisor.",
+    note=SUP_NOTE + " The three restart state machines are not transcribed transition by transition (planned); open findings P7a-c are matched by exact history.",
+    tech="TLA+ reference specification SupContract evaluated by TLC over recorded histories of real supervisors (trace validation)")
+CHECKS["C09"] = dict(level="model_checking", ref="DESIGN.md §4 C09, §9",
+    text="TLA+ spec Intensity: the transcription of supCheckRestartIntensity equals the sliding-window definition for every timing pattern over I in 1..3, P in 1..2 "
+         "(exhaustive TLC runs). The enumerated timing patterns (gaps 0, 1 ms, P*1000-1, P*1000, P*1000+1, 2P*1000 ms) are replayed on real one-for-one, all-for-one "
+         "and rest-for-one supervisors under a virtual clock (lib.VerifNow) and TLC validates fate, reason and running set after every failure against SupContract.",
+    note=SUP_NOTE + " Time is virtual through a build-tag clock hook inside supCheckRestartIntensity.",
+    tech="TLA+ specs Intensity (exhaustive TLC) and SupContract (trace validation of real supervisors under a virtual clock)")
+
 NOT_YET = {
 }
 
